@@ -109,6 +109,9 @@ class Scenario:
     # ---------------------------------------------------------------- actions
     def new(self):
         r = self.rng
+        # the router's HashMap-order / thread_rng choices are drawn from this seed (hook), so that
+        # the recorded history replays exactly
+        self.do("SEED %d" % r.below(1 << 62), ("seed",))
         self.cfg = dict(maxconn=r.choice([2, 3, 4, 10]), maxout=r.choice([1, 3, 10, 200]),
                         segsize=r.choice([1024, 1024, 4096]), segcount=r.choice([1, 2, 3, 10]),
                         strategy=r.choice(["rr", "rr", "random", "sticky"]), dbg=1)
@@ -125,11 +128,11 @@ class Scenario:
                 names += ["", "x/y", "p+", "$d", "h#", "ü"]
             name = r.choice(names)
         if clean is None:
-            clean = r.chance(1, 2)
+            clean = r.chance(*getattr(self, "p_clean", (1, 2)))
         alias_max = r.choice([0, 0, 0, 2, 10])
         will = "-"
         willd = None
-        if r.chance(1, 4):
+        if r.chance(*getattr(self, "p_will", (1, 4))):
             wt = r.choice(TOPICS + (["$w", "\xff"] if hostile else []))
             wtb = b"\xff\xfe" if wt == "\xff" else wt.encode()
             self.seq += 1
@@ -170,7 +173,7 @@ class Scenario:
         self.seq += 1
         payload = b"" if r.chance(1, 12) else ("m%d" % self.seq).encode()
         qos = r.below(3)
-        retain = 1 if r.chance(1, 4) else 0
+        retain = 1 if r.chance(*getattr(self, "p_retain", (1, 4))) else 0
         pkid = 0
         if qos > 0:
             pkid = cl.next_pkid
@@ -198,7 +201,7 @@ class Scenario:
         n = 1 + r.below(3) if r.chance(1, 3) else 1
         fs = []
         for _ in range(n):
-            pool = FILTERS + (SHARED if r.chance(1, 3) else []) + (BAD_FILTERS if hostile and r.chance(1, 4) else [])
+            pool = (SHARED * 3 if self.kind == "shared" and r.chance(1, 2) else FILTERS) + (SHARED if r.chance(*getattr(self, "p_shared", (1, 3))) else []) + (BAD_FILTERS if hostile and r.chance(1, 4) else [])
             fs.append((r.choice(pool), r.below(3)))
         subid = "-"
         if r.chance(1, 6):
@@ -212,7 +215,7 @@ class Scenario:
 
     def unsubscribe(self, cl):
         r = self.rng
-        pool = list(cl.subs_seen) or FILTERS
+        pool = sorted(cl.subs_seen) or FILTERS
         fs = [r.choice(pool + FILTERS[:2]) for _ in range(1 + r.below(2))]
         pkid = cl.next_pkid
         cl.next_pkid = cl.next_pkid % 65535 + 1
@@ -311,39 +314,63 @@ class Scenario:
         return False
 
     # ---------------------------------------------------------------- scenario kinds
+    # weights of the actions per kind:
+    # (connect, subscribe, unsubscribe, publish, consume, drain+ack, flush, end, reconnect, hostile)
+    WEIGHTS = {
+        "normal":   (4, 12, 4, 30, 20, 12, 4, 5, 3, 0),
+        "hostile":  (4, 12, 4, 26, 18, 12, 4, 5, 3, 12),
+        "session":  (2, 6, 0, 34, 18, 14, 4, 8, 10, 0),
+        "window":   (1, 4, 0, 50, 14, 10, 3, 1, 1, 0),
+        "shared":   (5, 16, 3, 32, 18, 12, 3, 4, 3, 0),
+        "retained": (5, 18, 3, 30, 18, 12, 3, 3, 2, 0),
+        "will":     (8, 8, 1, 20, 18, 10, 3, 14, 6, 0),
+    }
+
     def run(self):
-        for c in ():
-            pass
         self.new()
         r = self.rng
-        hostile = self.kind == "hostile"
-        for _ in range(1 + r.below(3)):
+        kind = self.kind
+        hostile = kind == "hostile"
+        wts = self.WEIGHTS[kind]
+        total = sum(wts)
+        self.p_retain = {"retained": (1, 2)}.get(kind, (1, 4))
+        self.p_will = {"will": (3, 4)}.get(kind, (1, 4))
+        self.p_shared = {"shared": (2, 3)}.get(kind, (1, 3))
+        self.p_clean = {"session": (1, 5)}.get(kind, (1, 2))
+        self.burst = {"window": 150}.get(kind, 40)
+        for _ in range(1 + r.below(3) + (1 if kind in ("shared", "window") else 0)):
             self._fresh_client(hostile)
         steps = 0
         while steps < self.size and not self.dead:
             steps += 1
             live = self.live()
-            x = r.below(100)
-            if not live or x < 4:
+            x = r.below(total)
+            act = 0
+            while x >= wts[act]:
+                x -= wts[act]
+                act += 1
+            if not live or act == 0:
                 self._fresh_client(hostile)
                 continue
             cl = r.choice(live)
-            if x < 16:
+            if act == 1:
+                if kind == "session" and steps > self.size // 2:
+                    continue            # keep the subscriptions stable in the second half
                 self.subscribe(cl, hostile)
                 if r.chance(3, 4):
                     self.data(cl)
-            elif x < 20:
+            elif act == 2:
                 self.unsubscribe(cl)
                 if r.chance(3, 4):
                     self.data(cl)
-            elif x < 50:
-                for _ in range(1 + (r.below(40) if r.chance(1, 6) else r.below(3))):
+            elif act == 3:
+                for _ in range(1 + (r.below(self.burst) if r.chance(1, 6) else r.below(3))):
                     self.publish(cl, hostile)
                 if r.chance(4, 5):
                     self.data(cl)
-            elif x < 70:
+            elif act == 4:
                 self.consume(1 + r.below(4))
-            elif x < 82:
+            elif act == 5:
                 self.drain(cl)
                 if r.chance(2, 3) and cl.alive:
                     if cl.to_ack or cl.to_rel:
@@ -352,7 +379,7 @@ class Scenario:
                             self.data(cl)
                     if cl.owe_ready and r.chance(3, 4):
                         self.ready(cl)
-            elif x < 86:
+            elif act == 6:
                 if cl.pushed:
                     self.data(cl)
                 elif cl.owe_ready:
@@ -360,17 +387,15 @@ class Scenario:
                 else:
                     self.push(cl, "PING", ("ping",))
                     self.data(cl)
-            elif x < 91:
+            elif act == 7:
                 self.end_connection(cl, r.choice(["packet", "event", "event+will", "event+will"]))
-            elif x < 94:
+            elif act == 8:
                 # reconnect some earlier client id (takeover if it is still alive)
                 old = r.choice(self.clients)
-                ncl = self.connect(name=old.name, clean=r.chance(1, 3))
+                ncl = self.connect(name=old.name, clean=r.chance(*self.p_clean) if kind == "session" else r.chance(1, 3))
                 self._init_client(ncl)
-            elif hostile:
-                self._hostile_action(cl)
             else:
-                self.consume(2)
+                self._hostile_action(cl)
         if not self.dead:
             self.settled = self.settle()
         return self
